@@ -2,8 +2,9 @@
 
 
 def install_all(it):
-    from . import bytesm, btree, timekad, maddr, env, seq, core, cidm, strm, cryptom, asyncm
+    from . import bytesm, btree, timekad, maddr, env, seq, core, cidm, strm, cryptom, asyncm, protom
     asyncm.install(it)
+    protom.install(it)
     cryptom.install(it)
     strm.install(it)
     cidm.install(it)
